@@ -1,7 +1,352 @@
-(* C16 - placeholder while the development is being built *)
+(* C16 - The template function library matches its documented semantics on all inputs.
+   Only statements; proofs are in Funcs/*_proofs.v.  Models: Funcs/Utf8.v Strings.v Arith.v
+   Case.v Path.v, the function table with the template argument order in Funcs/FuncMap.v
+   ([fm_*] wrappers: subject string LAST; [apply] = one call {{ f a1 .. an }}).
+   Strings are byte lists (any bytes: invalid UTF-8 included); Go's int is Z wrapped to 64
+   bits; Go's unicode tables are a parameter [U] of every case-function theorem.
+   first_is_lower / exported model the behaviour WITH fixes/c16-first-rune.diff.
+   Not modelled (no theorem, named in the manifest entry): snakecase kebabcase matchString
+   ceil floor round randInt. *)
 From Coq Require Import NArith ZArith.
-From Mk Require Import Lib.Bytes Funcs.Utf8 Funcs.Strings Funcs.Arith Funcs.Case Funcs.Path Funcs.FuncMap.
+From Mk Require Import Lib.Bytes Funcs.Utf8 Funcs.Utf8_proofs Funcs.Strings Funcs.Strings_proofs
+  Funcs.Arith Funcs.Arith_proofs Funcs.Case Funcs.Case_proofs Funcs.Path Funcs.FuncMap Funcs.FuncMap_proofs.
 
-Example C16_example : fm_split (B ",") (B "a,b") = [B "a"; B "b"].
-Proof. vm_compute. reflexivity. Qed.
-Print Assumptions C16_example.
+(* ================= contains / hasPrefix / hasSuffix : subject last ================= *)
+Theorem C16_contains_spec : forall sub s,
+  fm_contains sub s = true <-> exists a b, s = a ++ sub ++ b.
+Proof. intros. apply contains_spec. Qed.
+Print Assumptions C16_contains_spec.
+
+Theorem C16_hasPrefix_spec : forall p s, fm_has_prefix p s = true <-> exists r, s = p ++ r.
+Proof. intros. apply has_prefix_spec. Qed.
+Print Assumptions C16_hasPrefix_spec.
+
+Theorem C16_hasSuffix_spec : forall suf s, fm_has_suffix suf s = true <-> exists r, s = r ++ suf.
+Proof. intros. apply has_suffix_spec. Qed.
+Print Assumptions C16_hasSuffix_spec.
+
+(* strings.Index underneath: the offset found is an occurrence and the leftmost one *)
+Theorem C16_index_leftmost : forall s sub m, index s sub = Some m ->
+  s = firstn m s ++ sub ++ skipn (m + length sub) s /\
+  forall a b, s = a ++ sub ++ b -> m <= length a.
+Proof. intros s sub m H. split; [exact (index_some _ _ _ H) | exact (index_least _ _ _ H)]. Qed.
+Print Assumptions C16_index_leftmost.
+
+(* ================= split / join / replace ================= *)
+Theorem C16_join_split : forall sep s, sep <> [] -> fm_join sep (fm_split sep s) = s.
+Proof. intros. apply join_split. assumption. Qed.
+Print Assumptions C16_join_split.
+
+(* no piece of a split contains the separator (the split is complete), and there is a piece *)
+Theorem C16_split_pieces : forall sep s, sep <> [] ->
+  fm_split sep s <> [] /\ Forall (fun p => fm_contains sep p = false) (fm_split sep s).
+Proof. intros. split; [apply split_nonempty | apply split_pieces_sep_free]; assumption. Qed.
+Print Assumptions C16_split_pieces.
+
+(* empty separator: the UTF-8 sequences of s (invalid bytes one by one), nothing lost *)
+Theorem C16_split_empty_sep : forall s, fm_split [] s = chunks s /\ concat (fm_split [] s) = s.
+Proof. intros. unfold fm_split. rewrite split_empty_sep. split; [reflexivity | apply runes_concat]. Qed.
+Print Assumptions C16_split_empty_sep.
+
+Theorem C16_concat_splitAfter : forall sep s, concat (fm_split_after sep s) = s.
+Proof. intros. apply concat_split_after. Qed.
+Print Assumptions C16_concat_splitAfter.
+
+Theorem C16_splitAfterN : forall sep n s,
+  (n = 0%Z -> fm_split_after_n sep n s = []) /\
+  (n <> 0%Z -> concat (fm_split_after_n sep n s) = s) /\
+  ((0 < n)%Z -> length (fm_split_after_n sep n s) <= Z.to_nat n).
+Proof.
+  intros. split; [intros ->; reflexivity|]. split; [apply concat_split_after_n | apply gen_split_length].
+Qed.
+Print Assumptions C16_splitAfterN.
+
+Theorem C16_replaceAll_join_split : forall old new s, old <> [] ->
+  fm_replace_all old new s = fm_join new (fm_split old s).
+Proof. intros. apply replace_all_join_split. assumption. Qed.
+Print Assumptions C16_replaceAll_join_split.
+
+(* replace with a count n >= 0 = join over SplitN with n+1 pieces (at most n cuts, leftmost first) *)
+Theorem C16_replace_n : forall old new n s, old <> [] -> (0 <= n)%Z ->
+  fm_replace old new n s = fm_join new (gen_split s old 0 (n + 1)).
+Proof. intros. apply replace_n_join_split_n; assumption. Qed.
+Print Assumptions C16_replace_n.
+
+Theorem C16_replace_neg_is_all : forall old new n s, (n < 0)%Z ->
+  fm_replace old new n s = fm_replace_all old new s.
+Proof.
+  intros old new n s H. unfold fm_replace, fm_replace_all, replace_all, replace, repl_count.
+  destruct (Z.eqb_spec n 0); [lia|]. destruct (Z.ltb_spec n 0); [|lia]. reflexivity.
+Qed.
+Print Assumptions C16_replace_neg_is_all.
+
+Theorem C16_replace_trivial : forall old new n s,
+  fm_replace old new 0 s = s /\ fm_replace old old n s = s.
+Proof. intros. split; [apply replace_zero | apply replace_same]. Qed.
+Print Assumptions C16_replace_trivial.
+
+(* empty old: new before the first and after every UTF-8 sequence *)
+Theorem C16_replaceAll_empty_old : forall new s, new <> [] ->
+  fm_replace_all [] new s = new ++ concat (map (fun c => c ++ new) (chunks s)).
+Proof. intros. apply replace_all_empty_old. assumption. Qed.
+Print Assumptions C16_replaceAll_empty_old.
+
+(* ================= trimPrefix / trimSuffix ================= *)
+Theorem C16_trimPrefix : forall p s,
+  fm_trim_prefix p (p ++ s) = s /\
+  ((exists r, s = p ++ r /\ fm_trim_prefix p s = r) \/ ((forall r, s <> p ++ r) /\ fm_trim_prefix p s = s)).
+Proof. intros. split; [apply trim_prefix_app | apply trim_prefix_spec]. Qed.
+Print Assumptions C16_trimPrefix.
+
+Theorem C16_trimSuffix : forall suf s,
+  fm_trim_suffix suf (s ++ suf) = s /\
+  ((exists r, s = r ++ suf /\ fm_trim_suffix suf s = r) \/ ((forall r, s <> r ++ suf) /\ fm_trim_suffix suf s = s)).
+Proof. intros. split; [apply trim_suffix_app | apply trim_suffix_spec]. Qed.
+Print Assumptions C16_trimSuffix.
+
+(* ================= trim family (cut set = set of runes, ContainsRune) ================= *)
+(* trimLeft removes a prefix made of cut-set runes, and what remains does not start with one *)
+Theorem C16_trimLeft : forall cut s,
+  (exists l1 l2, runes s = l1 ++ l2 /\ forallb (fun p => contains_rune cut (fst p)) l1 = true /\
+                 s = concat (map snd l1) ++ fm_trim_left cut s) /\
+  (forall b t, fm_trim_left cut s = b :: t -> contains_rune cut (fst (decode (b :: t))) = false) /\
+  fm_trim_left cut (fm_trim_left cut s) = fm_trim_left cut s.
+Proof.
+  intros cut s. unfold fm_trim_left, trim_left. repeat split.
+  - destruct (trim_left_func_spec (contains_rune cut) s) as (l1 & l2 & R & F & _ & E & _). eauto.
+  - intros b t. apply trim_left_func_head.
+  - apply trim_left_func_idem.
+Qed.
+Print Assumptions C16_trimLeft.
+
+(* trimRight removes a suffix made of cut-set runes; the last remaining rune is not in the set *)
+Theorem C16_trimRight : forall cut s,
+  (exists l1 l2, runes s = l1 ++ l2 /\ forallb (fun p => contains_rune cut (fst p)) l2 = true /\
+                 s = fm_trim_right cut s ++ concat (map snd l2) /\
+                 runes (fm_trim_right cut s) = l1 /\
+                 match rev l1 with [] => True | p :: _ => contains_rune cut (fst p) = false end) /\
+  fm_trim_right cut (fm_trim_right cut s) = fm_trim_right cut s.
+Proof.
+  intros cut s. unfold fm_trim_right, trim_right. split.
+  - destruct (trim_right_func_spec (contains_rune cut) s) as (l1 & l2 & R & F & T & E & H).
+    exists l1, l2. repeat split; try assumption. rewrite T. exact (runes_prefix _ _ _ R).
+  - apply trim_right_func_idem.
+Qed.
+Print Assumptions C16_trimRight.
+
+Theorem C16_trim_both : forall cut s, fm_trim cut s = fm_trim_left cut (fm_trim_right cut s).
+Proof. reflexivity. Qed.
+Print Assumptions C16_trim_both.
+
+Theorem C16_trimSpace : forall s,
+  (exists a b, s = a ++ trim_space s ++ b) /\
+  (forall b t, trim_space s = b :: t -> is_space (fst (decode (b :: t))) = false).
+Proof.
+  intros s. unfold trim_space. split.
+  - destruct (trim_right_func_spec is_space s) as (_ & l2 & _ & _ & _ & E & _).
+    destruct (trim_left_func_spec is_space (trim_right_func is_space s)) as (l1 & _ & _ & _ & _ & E' & _).
+    exists (concat (map snd l1)), (concat (map snd l2)). rewrite E at 1. rewrite E' at 1.
+    rewrite <- app_assoc. reflexivity.
+  - intros b t. apply trim_left_func_head.
+Qed.
+Print Assumptions C16_trimSpace.
+
+(* ================= UTF-8 ================= *)
+Theorem C16_utf8_roundtrip : forall r rest, valid_rune r = true ->
+  decode (encode r ++ rest) = (r, length (encode r)).
+Proof. exact decode_encode. Qed.
+Print Assumptions C16_utf8_roundtrip.
+
+Theorem C16_chunks_lossless : forall s, concat (chunks s) = s.
+Proof. exact runes_concat. Qed.
+Print Assumptions C16_chunks_lossless.
+
+(* ================= arithmetic over ALL arguments, 64-bit wrap explicit ================= *)
+Theorem C16_add_sub_mul_mod64 : forall i1 rest, in_range i1 ->
+  add i1 rest = wrap (i1 + zsum rest) /\
+  sub i1 rest = wrap (i1 - zsum rest) /\
+  mul i1 rest = wrap (i1 * zprod rest).
+Proof. intros. split; [|split]; [apply add_spec | apply sub_spec | apply mul_spec]; assumption. Qed.
+Print Assumptions C16_add_sub_mul_mod64.
+
+Theorem C16_add_sub_mul_exact : forall i1 rest, in_range i1 ->
+  (in_range (i1 + zsum rest) -> add i1 rest = (i1 + zsum rest)%Z) /\
+  (in_range (i1 - zsum rest) -> sub i1 rest = (i1 - zsum rest)%Z) /\
+  (in_range (i1 * zprod rest) -> mul i1 rest = (i1 * zprod rest)%Z).
+Proof. intros. split; [|split]; intros; [apply add_exact | apply sub_exact | apply mul_exact]; assumption. Qed.
+Print Assumptions C16_add_sub_mul_exact.
+
+Theorem C16_incr_decr : forall i,
+  incr i = wrap (i + 1) /\ decr i = wrap (i - 1) /\
+  (in_range (i + 1) -> incr i = (i + 1)%Z) /\ (in_range (i - 1) -> decr i = (i - 1)%Z).
+Proof. intros. split; [reflexivity|]. split; [reflexivity|]. split; intros; apply wrap_id; assumption. Qed.
+Print Assumptions C16_incr_decr.
+
+Theorem C16_wrap_in_range : forall z, in_range (wrap z) /\ (in_range z -> wrap z = z).
+Proof. intros. split; [apply wrap_range | apply wrap_id]. Qed.
+Print Assumptions C16_wrap_in_range.
+
+(* div = iterated truncated quotient, left to right; a panic exactly for a zero divisor;
+   the only wrap-around is MinInt64 / -1 *)
+Theorem C16_div : forall i1 rest,
+  (div i1 rest = IPanic <-> In 0%Z rest) /\
+  (in_range i1 -> Forall in_range rest -> ~ In 0%Z rest -> no_overflow i1 rest ->
+   div i1 rest = IVal (fold_left Z.quot rest i1)) /\
+  wrap (Z.quot min_int (-1)) = min_int.
+Proof.
+  intros. split; [apply div_panic_iff|]. split; [|exact wrap_quot_overflow].
+  intros. apply div_exact; assumption.
+Qed.
+Print Assumptions C16_div.
+
+Theorem C16_mod : forall i1 rest,
+  (modulo i1 rest = IPanic <-> In 0%Z rest) /\
+  (in_range i1 -> ~ In 0%Z rest -> modulo i1 rest = IVal (fold_left Z.rem rest i1)).
+Proof. intros. split; [apply mod_panic_iff | intros; apply mod_exact; assumption]. Qed.
+Print Assumptions C16_mod.
+
+Theorem C16_min : forall xs,
+  (xs = [] -> minimum xs = IPanic) /\
+  (xs <> [] -> exists m, minimum xs = IVal m /\ In m xs /\ Forall (fun y => (m <= y)%Z) xs).
+Proof. intros. split; [intros ->; reflexivity | apply minimum_spec]. Qed.
+Print Assumptions C16_min.
+
+(* argument order of the non-commutative ones, through the table *)
+Theorem C16_argorder_arith : forall U W a b, in_range a -> in_range b ->
+  apply U W FSub [AInt a; AInt b] = Val (VInt (wrap (a - b))) /\
+  (b <> 0%Z -> apply U W FDiv [AInt a; AInt b] = Val (VInt (wrap (Z.quot a b)))) /\
+  (b <> 0%Z -> apply U W FMod [AInt a; AInt b] = Val (VInt (Z.rem a b))).
+Proof.
+  intros U W a b Ha Hb. split; [|split].
+  - cbn [apply ints option_map]. rewrite sub_spec by assumption. cbn [zsum fold_right]. do 3 f_equal. lia.
+  - intros Hz. cbn [apply ints option_map of_ires div]. destruct (Z.eqb_spec b 0); [contradiction | reflexivity].
+  - intros Hz. cbn [apply ints option_map of_ires modulo]. destruct (Z.eqb_spec b 0); [contradiction|].
+    rewrite wrap_rem by assumption. reflexivity.
+Qed.
+Print Assumptions C16_argorder_arith.
+
+(* ================= case functions, for every Unicode table U ================= *)
+Theorem C16_firstIsLower : forall U,
+  first_is_lower U [] = false /\
+  (forall r rest, valid_rune r = true ->
+     first_is_lower U (encode r ++ rest) = is_letter U r && negb (is_upper U r)) /\
+  (forall s, first_is_lower U s = true <->
+     s <> [] /\ is_letter U (fst (decode s)) = true /\ is_upper U (fst (decode s)) = false).
+Proof.
+  intros U. split; [reflexivity|]. split; [|apply first_is_lower_spec].
+  intros. apply first_is_lower_rune. assumption.
+Qed.
+Print Assumptions C16_firstIsLower.
+
+Theorem C16_exported : forall U,
+  exported U [] = [] /\
+  (forall s i, s <> [] -> In i initialisms -> upper U s = i -> exported U s = i) /\
+  (forall r rest, valid_rune r = true -> ~ In (upper U (encode r ++ rest)) initialisms ->
+     exported U (encode r ++ rest) = encode (to_upper U r) ++ rest) /\
+  (forall s, s <> [] -> fst (decode s) = rune_error -> to_upper U rune_error = rune_error ->
+     ~ In (upper U s) initialisms -> exported U s = s).
+Proof.
+  intros U. split; [reflexivity|]. split; [apply exported_initialism|].
+  split; [apply exported_first_rune | apply exported_invalid_first].
+Qed.
+Print Assumptions C16_exported.
+
+Theorem C16_exported_not_first_lower : forall U r rest,
+  valid_rune r = true -> valid_rune (to_upper U r) = true ->
+  ~ In (upper U (encode r ++ rest)) initialisms ->
+  is_letter U (to_upper U r) = false \/ is_upper U (to_upper U r) = true ->
+  first_is_lower U (exported U (encode r ++ rest)) = false.
+Proof. exact exported_not_first_lower. Qed.
+Print Assumptions C16_exported_not_first_lower.
+
+Theorem C16_firstUpper_firstLower : forall U,
+  first_upper U [] = [] /\ first_lower U [] = [] /\
+  (forall r rest, valid_rune r = true ->
+     first_upper U (encode r ++ rest) = if is_lower U r then encode (to_upper U r) ++ rest else encode r ++ rest) /\
+  (forall r rest, valid_rune r = true ->
+     first_lower U (encode r ++ rest) = if is_upper U r then encode (to_lower U r) ++ rest else encode r ++ rest).
+Proof.
+  intros U. split; [reflexivity|]. split; [reflexivity|].
+  split; [apply first_upper_rune | apply first_lower_rune].
+Qed.
+Print Assumptions C16_firstUpper_firstLower.
+
+Theorem C16_upper_lower_valid : forall U rs, forallb valid_rune rs = true ->
+  upper U (encode_all rs) = encode_all (map (to_upper U) rs) /\
+  lower U (encode_all rs) = encode_all (map (to_lower U) rs).
+Proof. intros. split; [apply upper_valid | apply lower_valid]; assumption. Qed.
+Print Assumptions C16_upper_lower_valid.
+
+(* camelcase.  Full statement (false for the unchanged library):
+     forall rs, length (camel_runes U rs) <= length rs      "never invents characters"
+   It fails exactly on non-empty inputs made of connectors only (known finding
+   C16-camelcase-connectors-only, xstrings): *)
+Theorem C16_camelcase_connectors_refuted : forall U,
+  exists rs, length (camel_runes U rs) > length rs.
+Proof. intros U. exists [95%N]. cbn. lia. Qed.
+Print Assumptions C16_camelcase_connectors_refuted.
+
+Definition connectors_only (rs : list N) : Prop := rs <> [] /\ forallb is_connector rs = true.
+Theorem C16_camelcase_connectors_class : forall U rs, connectors_only rs ->
+  camel_runes U rs = rs ++ [last rs 0%N].
+Proof. intros U rs [NE H]. apply camel_runes_connectors_only; assumption. Qed.
+Print Assumptions C16_camelcase_connectors_class.
+
+Theorem C16_camelcase_no_growth_guarded : forall U rs, has_word rs = true ->
+  length (camel_runes U rs) <= length rs.
+Proof. exact camel_runes_no_growth. Qed.
+Print Assumptions C16_camelcase_no_growth_guarded.
+
+Example C16_camelcase_guard_satisfiable :
+  has_word (rune_vals (B "some_words")) = true /\ has_word (rune_vals (B "_ -")) = false.
+Proof. vm_compute. split; reflexivity. Qed.
+
+(* ================= quoteMeta, base, clean, expandEnv ================= *)
+Theorem C16_quoteMeta : forall s, unquote (quote_meta s) = s /\ escaped (quote_meta s) = true.
+Proof. intros. split; [apply unquote_quote_meta | apply quote_meta_escaped]. Qed.
+Print Assumptions C16_quoteMeta.
+
+Theorem C16_base_clean_shape : forall p,
+  base p <> [] /\ (base p = [slash] \/ ~ In slash (base p)) /\ clean p <> [] /\ base [] = B "." /\ clean [] = B ".".
+Proof.
+  intros. split; [apply base_nonempty|]. split; [apply base_no_slash|]. split; [apply clean_nonempty|].
+  split; reflexivity.
+Qed.
+Print Assumptions C16_base_clean_shape.
+
+(* the fuel of expand_env is never exhausted; a string without a dollar sign is unchanged *)
+Theorem C16_expandEnv : forall env s,
+  (forall f, length s < f -> expand_f f env s = expand_env env s) /\
+  (~ In x24 s -> expand_env env s = s).
+Proof.
+  intros. split; [|apply expand_no_dollar].
+  intros f Hf. unfold expand_env. apply expand_f_fuel; lia.
+Qed.
+Print Assumptions C16_expandEnv.
+
+(* ================= totality ================= *)
+(* No call in the table panics, except: a zero divisor in div/mod, and min without arguments
+   (text/template reports these as template errors; the run does not crash). *)
+Theorem C16_total : forall U W f args, apply U W f args = Panic ->
+  (f = FMin /\ args = []) \/
+  ((f = FDiv \/ f = FMod) /\ exists i t, args = AInt i :: t /\ In (AInt 0) t).
+Proof. exact apply_panic. Qed.
+Print Assumptions C16_total.
+
+(* Non-vacuity: the model computes the documented examples (and the fixed first-rune cases
+   with a two-entry Unicode table: U+00E9 is a lower-case letter with upper case U+00C9). *)
+Definition Uex (r : N) : uinfo :=
+  if N.eqb r 233 then {| u_letter := true; u_upper := false; u_lower := true; u_toupper := 201; u_tolower := 233 |}
+  else if N.eqb r 97 then {| u_letter := true; u_upper := false; u_lower := true; u_toupper := 65; u_tolower := 97 |}
+  else {| u_letter := false; u_upper := false; u_lower := false; u_toupper := r; u_tolower := r |}.
+Example C16_examples :
+  fm_split (B ",") (B "a,b,c") = [B "a"; B "b"; B "c"] /\
+  fm_replace (B "old") (B "new") 2 (B "oldoldold") = B "newnewold" /\
+  fm_split_after_n (B ",") 2 (B "a,b,c") = [B "a,"; B "b,c"] /\
+  fm_trim (B " ,") (B ", a ,") = B "a" /\
+  first_is_lower Uex [] = false /\
+  first_is_lower Uex [xc3; xa9; x61] = true /\
+  exported Uex [xc3; xa9; x61] = [xc3; x89; x61] /\
+  div 7 [(-2)%Z] = IVal (-3)%Z /\ modulo (-7) [2%Z] = IVal (-1)%Z /\
+  add max_int [1%Z] = min_int.
+Proof. vm_compute. repeat split; reflexivity. Qed.
